@@ -15,7 +15,7 @@ DOCS = ["plain", "colA", "colB", "multi", "fig", "fail", "share2", "share3", "pa
         "share1", "sharew2", "sharew3", "brdA", "brdB", "cyc", "pagedm1", "pagedm2", "pgshare", "pgfail"]
 JUDGE = ["C14_Pure", "C14_Repeatable", "C14_DfUnchanged", "C14_Outcome", "C14_AllRan"]
 PLAN = {"quick": dict(exhaustive=1, sim_len=4, sim_num=900, model_len=2),
-        "thorough": dict(exhaustive=3, sim_len=4, sim_num=12000, model_len=3)}
+        "thorough": dict(exhaustive=2, sim_len=4, sim_num=16000, model_len=2)}
 
 
 def _hist_cfg(work, name, flags, maxhist, invariants):
